@@ -17,9 +17,12 @@ pub struct Script {
     pub fault: Option<io::ErrorKind>,
     /// fault is raised when the position reaches this offset (default: data.len())
     pub fault_at: Option<usize>,
+    /// the fault is transient: raised once at `fault_at`, after which the rest of `data` is delivered
+    pub fault_once: bool,
 }
 
 pub struct Src {
+    faulted: bool,
     s: Script,
     pub pos: Arc<AtomicUsize>,
     call: usize,
@@ -30,13 +33,22 @@ pub struct Src {
 impl Src {
     pub fn new(s: Script) -> (Src, Arc<AtomicUsize>) {
         let pos = Arc::new(AtomicUsize::new(0));
-        (Src { s, pos: pos.clone(), call: 0, hiccups_done: 0, hiccup_pos: usize::MAX }, pos)
+        (Src { faulted: false, s, pos: pos.clone(), call: 0, hiccups_done: 0, hiccup_pos: usize::MAX }, pos)
     }
 
     /// Ok(Some(n)) = n bytes copied; Ok(None) = hiccup; Err = fault
     fn step(&mut self, buf: &mut [u8]) -> io::Result<Option<usize>> {
         let pos = self.pos.load(Ordering::SeqCst);
-        let end = self.s.fault_at.unwrap_or(self.s.data.len()).min(self.s.data.len());
+        let mut end = self.s.fault_at.unwrap_or(self.s.data.len()).min(self.s.data.len());
+        if self.s.fault_once && self.s.fault.is_some() {
+            if self.faulted || pos > end {
+                end = self.s.data.len();
+                if pos >= end { return Ok(Some(0)); }
+            } else if pos >= end {
+                self.faulted = true;
+                return Err(io::Error::from(self.s.fault.unwrap()));
+            }
+        }
         if buf.is_empty() {
             return Ok(Some(0));
         }
@@ -92,5 +104,5 @@ impl AsyncRead for Src {
 }
 
 pub fn whole(data: &[u8]) -> Script {
-    Script { data: data.to_vec(), chunks: vec![], hiccup_at: vec![], fault: None, fault_at: None }
+    Script { data: data.to_vec(), chunks: vec![], hiccup_at: vec![], fault: None, fault_at: None, fault_once: false }
 }
